@@ -10,23 +10,25 @@ OUT=${SEED_OUTPFX:-/tmp/seedwork/out-}$ID
 RES=${SEED_RESDIR:-/tmp/seedwork/results}/$ID-$N.json
 mkdir -p "$(dirname "$RES")"
 export CARGO_NET_OFFLINE=true
+SREPO=${SEED_REPO:-/tmp/seedrepo}
+SHARN=${SEED_HARNESS:-/tmp/seedharness}
 conf=$(/verif/tools/verify_seed.sh ${SEED_WTPFX:-/tmp/wt-}$ID "$OUT" "$N" 2>&1)
 echo "$conf" | tail -4
 echo "$conf" | grep -q SEED-CONFIRMED || { echo "{\"seed\":\"$ID-$N\",\"confirmed\":false}" > "$RES"; exit 1; }
 # scratch harness
-rsync -a --delete --exclude target /verif/harness/ /tmp/seedharness/
-sed -i 's#/repo/#/tmp/seedrepo/#g' /tmp/seedharness/Cargo.toml
-cd /tmp/seedrepo && git checkout -q -- . && git clean -fdq && git apply "$OUT/patch$N.diff" || exit 2
-if git diff --name-only | grep -q 'resources/\|build.rs'; then (cd /tmp/seedharness && cargo clean --release -p precis-core -p precis-profiles >/dev/null 2>&1); touch /tmp/seedharness/.cleaned; fi
-(cd /tmp/seedharness && cargo build --release 2>/tmp/seedwork/build.log) || { echo "harness build failed"; tail -5 /tmp/seedwork/build.log; cd /tmp/seedrepo && git checkout -q -- .; exit 2; }
+rsync -a --delete --exclude target /verif/harness/ $SHARN/
+sed -i "s#/repo/#$SREPO/#g" $SHARN/Cargo.toml
+cd $SREPO && git checkout -q -- . && git clean -fdq && git apply "$OUT/patch$N.diff" || exit 2
+if git diff --name-only | grep -q 'resources/\|build.rs'; then (cd $SHARN && cargo clean --release -p precis-core -p precis-profiles >/dev/null 2>&1); touch $SHARN/.cleaned; fi
+(cd $SHARN && cargo build --release 2>/tmp/seedwork/build.log) || { echo "harness build failed"; tail -5 /tmp/seedwork/build.log; cd $SREPO && git checkout -q -- .; exit 2; }
 caught=""; missed=""; details=""
 for id in $IDS; do
-  out=$(PV_VERIF=/tmp/seedverif PV_DATA=/verif/data timeout 600 /tmp/seedharness/target/release/pv check $id --tier quick 2>/dev/null); rc=$?
+  out=$(PV_VERIF=/tmp/seedverif PV_DATA=/verif/data timeout 600 $SHARN/target/release/pv check $id --tier quick 2>/dev/null); rc=$?
   if [ $rc -eq 1 ]; then caught="$caught $id"; d=$(echo "$out" | grep -E '^(case|expected|observed):' | head -3 | tr '\n' ' ' | cut -c1-500); details="$details\n  $id: $d";
   elif [ $rc -eq 0 ]; then missed="$missed $id"; else missed="$missed $id(rc=$rc)"; fi
 done
-cd /tmp/seedrepo && git checkout -q -- . && git clean -fdq
-if [ -f /tmp/seedharness/.cleaned ]; then (cd /tmp/seedharness && cargo clean --release -p precis-core -p precis-profiles >/dev/null 2>&1); rm -f /tmp/seedharness/.cleaned; fi
+cd $SREPO && git checkout -q -- . && git clean -fdq
+if [ -f $SHARN/.cleaned ]; then (cd $SHARN && cargo clean --release -p precis-core -p precis-profiles >/dev/null 2>&1); rm -f $SHARN/.cleaned; fi
 python3 - "$ID" "$N" "$caught" "$missed" <<PY
 import json,sys
 json.dump({"seed":sys.argv[1]+"-"+sys.argv[2],"confirmed":True,"caught_by":sys.argv[3].split(),"not_caught_by":sys.argv[4].split()},open("$RES","w"))
